@@ -300,6 +300,9 @@ func c09CfgSig(cfg c09Cfg) string {
 	return name + "/" + own
 }
 
+// c09ServeConns counts the connections made for Serve(conn).
+var c09ServeConns int
+
 // c09Refused serves the configuration on connections that refuse its first, middle and last
 // subscription. A service that could not subscribe to everything it owns must not come up
 // (Serve fails): it would announce patterns whose requests reach no subscription.
@@ -643,7 +646,15 @@ func c09Nats(c *core.Ctx, ne *natsenv.Env, cfg c09Cfg) {
 	var nc *nats.Conn
 	var err error
 	if !cfg.listen {
-		nc, err = ne.Connect("svc", nats.ReconnectWait(400*time.Millisecond))
+		opts := []nats.Option{nats.ReconnectWait(400 * time.Millisecond)}
+		// every other connection handed to Serve comes from an owner who has set callbacks of
+		// their own on it: Serve replaces them ("any existing handlers will be replaced")
+		c09ServeConns++
+		if c09ServeConns%2 == 1 {
+			opts = append(opts, nats.ReconnectHandler(func(*nats.Conn) {}), nats.DisconnectErrHandler(func(*nats.Conn, error) {}), nats.ClosedHandler(func(*nats.Conn) {}))
+			desc["connection_had_callbacks_of_its_owner"] = true
+		}
+		nc, err = ne.Connect("svc", opts...)
 		if err != nil {
 			c.Inconclusive("connect: " + err.Error())
 			return
